@@ -75,7 +75,15 @@ READER_DRIVER = r"""
 (define counts (make-vector 6 0))
 (define (bump! i) (vector-set! counts i (+ 1 (vector-ref counts i))))
 (define env (environment '(scheme base)))
+(define seq 0) (define done-seq -1) (define doubles 0)
 (define (feed bv do-eval)
+  (set! seq (+ seq 1))
+  (feed1 bv do-eval)
+  ;; the code after a guarded call runs once per call: a handler that escaped from a nested VM makes it run again later
+  (if (= done-seq seq)
+      (begin (set! doubles (+ doubles 1)) (if (< doubles 4) (begin (display "#DOUBLE-RETURN ") (write bv) (newline))))
+      (set! done-seq seq)))
+(define (feed1 bv do-eval)
   (let ((s (utf8->string bv)))
     (guard (e (#t (bump! 1))) (read (open-input-string s)) (bump! 0))
     (guard (e (#t (bump! 3))) (lib:read (open-input-string s)) (bump! 2))
@@ -112,9 +120,12 @@ def run_reader(arg):
     r = common.evalbatch("asan", [p], heap="64M/512M", env=ENV, timeout=1200, cwd=d)
     m = re.search(r"^#R #\(([\d ]+)\)", r.out, re.M)
     counts = [int(x) for x in m.group(1).split()] if m else None
+    sites = asan_sites(r.out)
+    for dm in re.findall(r"^#DOUBLE-RETURN (.*)$", r.out, re.M)[:2]:
+        sites.append(("double-return", "guarded eval returned twice for the text " + dm.strip(), "reader-driver"))
     import shutil
     shutil.rmtree(d, ignore_errors=True)
-    return jobno, (length, lo, hi, do_eval), counts, r.rc, r.timed_out, asan_sites(r.out), r.out[-1200:]
+    return jobno, (length, lo, hi, do_eval), counts, r.rc, r.timed_out, sites, r.out[-1200:]
 
 
 # ---------------------------------------------------------------- datum labels
